@@ -2115,7 +2115,16 @@ pub mod gen {
                     r.auth = vec![Rec { name: com, ttl: 3600, data: RD::N(nsx) }];
                 }
             }
-            out.push(("answer-in-additional-only-foreign-authority", c));
+            out.push(("answer-in-additional-only-foreign-authority", c.clone()));
+            // the same shape for the answer filter of the pool: the authority section holds only an address the filter
+            // denies (stripped to nothing while the answer section was empty from the start)
+            for ((g, n, t), r) in c.table.iter_mut() {
+                if *g == ge && c.names[*n] == c.names[q1] && *t == 1 {
+                    r.auth = vec![Rec { name: q1, ttl: 3600, data: RD::A(u32::from(Ipv4Addr::new(66, 6, 6, 6))) }];
+                }
+            }
+            c.deny_ans = vec![net32(evil)];
+            out.push(("answer-in-additional-only-denied-authority-address", c));
         }
         // 17. RRSIGs along a CNAME chain across two zones: carried along for a client with the DO bit (every fourth
         //     internet, see Case::security_aware — the name table is padded to get there), stripped without it
